@@ -668,7 +668,7 @@ func c17Call(k *c17Case, idx int) {
 		if err == nil {
 			coll.InsertOne(ctx, ins)
 			coll.UpdateOne(ctx, bson.D{{Key: "g", Value: "grp"}}, bson.D{{Key: "$set", Value: bson.D{{Key: "w", Value: bson.A{int32(1), bson.D{{Key: "x", Value: int32(2)}}}}}}})
-			for stream.TryNext(ctx) {
+			for n := 0; n < 50 && stream.TryNext(ctx); n++ {
 				var ev bson.D
 				var evm bson.M
 				stream.Decode(&ev)
